@@ -207,6 +207,13 @@ func main() {
 			if c.gomaxprocs != "" {
 				env = append(env, "GOMAXPROCS="+c.gomaxprocs)
 			}
+			if c.race {
+				// race reports go to a file that the check inspects after every
+				// case (so that a report is attributed to a case and becomes a
+				// violation with a replay instead of a dead worker)
+				racelog := filepath.Join(scratch, fmt.Sprintf("race-%d", i))
+				env = append(env, "GORACE=log_path="+racelog+" halt_on_error=0 exitcode=0 history_size=4", "VERIF_RACELOG="+racelog)
+			}
 			cmd.Env = env
 			err := cmd.Run()
 			results[i] = res{err: err, log: logf, partial: partial}
